@@ -390,6 +390,68 @@ def check(ctx: Ctx) -> list[RuleResult]:
     if r7.instances < 1:
         raise AnalysisError("Schedule.get_schedule: the call of _get_schedule was not found")
     out.append(r7)
+
+    # ---- R8 ---------------------------------------------------------------------------
+    # (i) the schedule a write is about is exposed only once the write has gone through: in set_schedule the store of the new
+    # schedule comes after the loop that sends the fragments (a store before it, rolled back in some handlers only, leaves a schedule
+    # the controller never took in the object - and even a forced fetch serves it while the change counter has not moved);
+    # (ii) a future that other transfers wait on is resolved on every way out of the function that created it, cancellation included;
+    # (iii) the fragment set is inflated as a whole, checksum included: zlib.decompress(), or a decompressobj whose `eof` is required
+    r8 = RuleResult("R8", "nothing half-done is left behind or handed out", "set_schedule stores the new schedule only after the fragment loop; shared futures are resolved on all exits; the blob is inflated to its end", min_instances=1)
+    ss = repo.func(f"{S}.set_schedule")
+    cfg8 = ctx.plain_cfg(ss)
+    send_loops = [x for x in cfg8.nodes if x.ast is not None and isinstance(x.ast, (ast.For, ast.AsyncFor, ast.While)) or (x.kind == "iter")]
+    loop_asts = [n for n in own_nodes(ss.node) if isinstance(n, (ast.For, ast.AsyncFor, ast.While)) and any(isinstance(c, ast.Await) for c in ast.walk(n))]
+    if not loop_asts:
+        raise AnalysisError("set_schedule: the loop that sends the fragments was not found")
+    lp8 = loop_asts[0]
+    in_loop = {id(x) for x in ast.walk(lp8)}
+    stores8 = [n for n in own_nodes(ss.node) if isinstance(n, (ast.Assign, ast.AnnAssign)) and any(isinstance(t, ast.Attribute) and t.attr == "_full_schedule" and isinstance(t.ctx, ast.Store) for t0 in (n.targets if isinstance(n, ast.Assign) else [n.target]) for t in ast.walk(t0))]
+    if not stores8:
+        raise AnalysisError("set_schedule: no store of the new schedule found")
+    for st8 in stores8:
+        r8.instances += 1
+        r8.nontrivial += 1
+        after = getattr(st8, "lineno", 0) > getattr(lp8, "end_lineno", 0) and id(st8) not in in_loop
+        # ...and not inside a handler of the try around the loop (a roll-back there restores the *old* value: fine)
+        restores_old = isinstance(getattr(st8, "parent", None), ast.ExceptHandler)
+        if after or restores_old:
+            r8.ok({"store": norm(st8)[:60], "after_the_fragment_loop": after, "rollback_in_handler": restores_old})
+        else:
+            r8.fail(f"{ss.short}:schedule-exposed-before-written", ss.loc(st8), f"`{norm(st8)[:60]}` in set_schedule runs before the fragments have been sent: if the write fails part-way (any error other than the ones that happen to roll it back, or a cancellation) the object keeps - and get_schedule() serves - a schedule the controller never accepted")
+    import re as _re8
+
+    for g in repo.funcs.values():
+        if g.module.name not in ("ramses_rf.system.schedule", "ramses_rf.system.heat") or g.cls is None or g.cls.name not in ("Schedule", "ScheduleSync"):
+            continue
+        for n in own_nodes(g.node):
+            if isinstance(n, ast.Assign) and isinstance(n.value, ast.Call) and norm(n.value.func).endswith("create_future") and isinstance(n.targets[0], ast.Attribute):
+                attr = norm(n.targets[0])
+                r8.instances += 1
+                r8.nontrivial += 1
+                cfgf = ctx.cfg(g, pol, cancellation=True)
+                start = [x for x in cfgf.nodes if x.ast is n]
+                def resolves(x, attr=attr):
+                    return x.ast is not None and x.kind in ("stmt", "test", "iter", "with") and any(isinstance(c, ast.Call) and isinstance(c.func, ast.Attribute) and c.func.attr in ("set_result", "set_exception", "cancel") and norm(c.func.value) == attr for c in ast.walk(x.ast))
+                leaks = cfgf.exits_reachable_without(start[0].id, resolves, skip_start_exc=True) if start else []
+                if leaks:
+                    ex8, path8, labs8 = leaks[0]
+                    r8.fail(f"{g.short}:shared-future-unresolved:{attr}", g.loc(n), f"{g.short} creates `{attr}` for others to wait on, but an exit of the function is reachable without resolving it ({'cancellation' if any('cancel' in l for l in labs8) else 'an exception path'}): a transfer awaiting it waits for ever - holding the system-wide schedule lock", [f"exit via: {' > '.join(labs8[-4:])}"])
+                else:
+                    r8.ok({"future": attr, "resolved_on_all_exits": True})
+    for g in module_scope(ctx, repo.func("ramses_rf.system.schedule.fragz_to_full_sched")):
+        for n in own_nodes(g.node):
+            if isinstance(n, ast.Call) and norm(n.func).endswith("decompressobj"):
+                r8.instances += 1
+                r8.nontrivial += 1
+                obj = next((norm(a.targets[0]) for a in own_nodes(g.node) if isinstance(a, ast.Assign) and a.value is n), None)
+                need = ast.parse(f"{obj}.eof", mode="eval").body if obj else None
+                checked = obj is not None and any(isinstance(st, ast.If) and any(isinstance(b, ast.Raise) for b in st.body) and edge_implies(st.test, False, need) for st in own_nodes(g.node))
+                if checked:
+                    r8.ok({"inflate": "decompressobj with `eof` required"})
+                else:
+                    r8.fail(f"{g.short}:inflate-not-to-the-end", g.loc(n), "the fragment set is inflated with a decompressobj without requiring `eof` on every normal path: the stream's checksum is only verified at its end, so a set stitched from fragments of two versions of a schedule (same length) inflates 'successfully' and is returned as the controller's schedule")
+    out.append(r8)
     return out
 
 
